@@ -220,90 +220,84 @@ def r16c(run, C):
 
 
 def r16d(run, C):
+    """TypeRegistry.resolve as a decision table.  The function (with helpers that are new with respect to the baseline
+    analysed in place) is interpreted by the checker's own interpreter (absint.py) over every combination of: a registry of
+    0..3 entries whose detectors accept / reject / raise TypeError, caching on / off, the type memoised or not, no shortcut
+    attribute / a valid one / an invalid one / shortcut configured but absent on the type, a base registry or none.  The
+    answer and the memo afterwards are compared with the documented resolution order: shortcut, memo (when caching), the
+    first accepting entry in list order (raising detectors are skipped; the match is memoised when caching), the base
+    registry, the default - and nothing but a positive match of this registry's own scan is ever memoised."""
+    import itertools
+    from ..absint import Interp, Obj, Raised
     f = run.repo.func("utype.utils.base", "TypeRegistry.resolve")
-    fa = analysis(f)
-    t = f.params[1] if len(f.params) > 1 else "t"
-    def _is_registry(n):
-        if unparse(n.ast) == "self._registry":
-            return True
-        if isinstance(n.ast, ast.Name) and n.ast.id in fa.rd.locals:
-            os_ = prov(fa).of_name(n, n.ast.id)
-            return bool(os_) and all(o.kind == "attr" and o.text == "self._registry" for o in os_)
-        return False
-    loops = [n for n in fa.cfg.nodes if n.kind == "iter" and _is_registry(n)]
-    run.check("R16d", f, "resolve scans self._registry in list order", len(loops) == 1,
-              construct="resolve does not scan the registry in order",
-              message="TypeRegistry.resolve has no `for ... in self._registry` scan (or iterates a reordered copy)",
-              necessity="the first match in priority/recency order must win")
-    if len(loops) != 1:
-        return
-    lp = loops[0]
-    # returns inside the loop: the matched entry's function, under a positive detector(t) fact
-    rets = [n for n in fa.cfg.nodes if n.kind == "stmt" and isinstance(n.ast, ast.Return)
-            and any(x is n.ast for x in walk_shallow(lp.stmt))]
-    run.floor("R16d", "returns inside the registry scan", len(rets), 1)
-    tgt = lp.stmt.target
-    names = [e.id for e in tgt.elts] if isinstance(tgt, ast.Tuple) else []
-    for r in rets:
-        facts = {(unparse(a), p) for a, p in fa.facts.atoms_at(r)}
-        det_ok = any(a.endswith(f"({t})") and p and a.split("(")[0] in names for a, p in facts)
-        val_ok = isinstance(r.ast.value, ast.Name) and r.ast.value.id in names
-        run.check("R16d", f, "the scan returns the function of the first entry whose detector accepts the type",
-                  det_ok and val_ok, construct="scan return", message=f"`{norm_stmt(r.ast)}` is not guarded by the "
-                  f"entry's detector on `{t}` or returns something else than the entry's function",
-                  necessity="a non-matching registration's converter is used", node=r.ast)
-    # memo: read guarded by self.cache, keyed by t; write keyed by t with the matched function
-    for n in fa.cfg.nodes:
-        if n.kind == "stmt" and isinstance(n.ast, ast.Assign):
-            for tg in n.ast.targets:
-                if isinstance(tg, ast.Subscript) and unparse(tg.value) == "self._cache":
-                    in_scan = any(x is n.ast for x in walk_shallow(lp.stmt))
-                    ok = unparse(tg.slice) == t and isinstance(n.ast.value, ast.Name) and n.ast.value.id in names \
-                        and any(unparse(a) == "self.cache" and p for a, p in fa.facts.atoms_at(n)) and in_scan \
-                        and all(d.kind == "branch" and d.is_for for d in fa.rd.defs_of(n, n.ast.value.id))
-                    run.check("R16d", f, "the memo is filled for the resolved type with the matched function, only "
-                                         "when caching is enabled", ok, construct="memo write",
-                              message=f"`{norm_stmt(n.ast)}` memoises under a different key/value, without the "
-                                      f"cache flag, or something else than the entry matched by this registry's own scan",
-                              necessity="another type's converter is served from the memo; an answer taken from the base "
-                                        "registry and memoised here is not invalidated by a later registration in the base",
-                              node=n.ast)
-        if n.kind == "stmt" and isinstance(n.ast, ast.Return) and "self._cache" in unparse(n.ast):
-            v = n.ast.value
-            ok = isinstance(v, ast.Subscript) and unparse(v.slice) == t and any(
-                unparse(a) == f"{t} in self._cache" and p for a, p in fa.facts.atoms_at(n))
-            run.check("R16d", f, "the memo is read for the resolved type only", ok, construct="memo read",
-                      message=f"`{norm_stmt(n.ast)}` reads the memo under a different key", node=n.ast)
-        if n.kind == "stmt" and isinstance(n.ast, ast.Assign) and isinstance(n.ast.value, ast.Call) \
-                and unparse(n.ast.value.func) == "self._cache.get":
-            # idiom: cached = self._cache.get(t); if cached is not None: return cached   (one atomic read)
-            c = n.ast.value
-            var = unparse(n.ast.targets[0])
-            ok = bool(c.args) and unparse(c.args[0]) == t and (len(c.args) == 1 or unparse(c.args[1]) == "None")
-            rets_v = [m for m in fa.cfg.nodes if m.kind == "stmt" and isinstance(m.ast, ast.Return)
-                      and unparse(m.ast.value) == var and fa.cfg.dominates(n, m)]
-            ok = ok and bool(rets_v) and all(any(
-                (unparse(a) == f"{var} is not None" and p) or (unparse(a) == f"{var} is None" and not p)
-                or (unparse(a) == var and p) for a, p in fa.facts.atoms_at(m)) for m in rets_v)
-            run.check("R16d", f, "the memo is read for the resolved type only (get-then-test)", ok,
-                      construct="memo read", message=f"`{norm_stmt(n.ast)}` reads the memo under a different key or "
-                      f"returns it without testing the hit", node=n.ast)
-    # order: shortcut test dominates the memo read, which dominates the scan; base fallback after the scan
-    sc = [n for n in fa.cfg.nodes if n.kind == "test" and "self.shortcut" in unparse(n.ast)]
-    memo = [n for n in fa.cfg.nodes if n.kind in ("test", "stmt") and n.ast is not None and "self._cache" in unparse(n.ast)
-            and not (isinstance(n.ast, ast.Assign) and isinstance(n.ast.targets[0], ast.Subscript))]
-    memo.sort(key=lambda x: x.id)
-    base = [n for n in fa.cfg.nodes if n.kind in ("test", "stmt") and "self.base" in unparse(n.ast)]
-    # the memo read lies before the scan (never after it) on every path that performs it
-    ok = bool(sc and memo and base) and fa.cfg.dominates(sc[0], memo[0]) and fa.cfg.can_reach(memo[0], lp, kinds=(N,)) \
-        and not fa.cfg.can_reach(lp, memo[0], kinds=(N,)) and all(fa.cfg.dominates(lp, b) for b in base)
-    run.check("R16d", f, "resolve consults shortcut, memo, the list, the base registry, the default - in that order", ok,
-              construct="resolve order", message="TypeRegistry.resolve does not consult shortcut -> memo -> scan -> "
-              "base -> default in this order", necessity="a base registration could shadow an own registration")
-    memo_guard = any(unparse(a) == "self.cache" and p for a, p in fa.facts.atoms_at(memo[0])) or (
-        memo and memo[0].kind == "test" and "self.cache" in unparse(memo[0].ast)) if memo else False
-    run.check("R16d", f, "the memo is consulted only when caching is enabled", bool(memo_guard), construct="memo read flag",
-              message="TypeRegistry.resolve reads the memo without testing self.cache")
+    methods = {m.name: m.node for m in C.methods.values()}
+    total = 0
+    wrong = {}
+
+    def detector(outcome):
+        def d(_t):
+            if outcome == "X":
+                raise Raised("TypeError", ("not a class",))
+            return outcome == "A"
+        return d
+    registries = [()] + [c for n_ in (1, 2, 3) for c in itertools.product("ARX", repeat=n_)]
+    for reg in registries:
+        for cache in (True, False):
+            for memoised in (False, True):
+                for shortcut in ("none", "valid", "invalid", "absent"):
+                    for has_base in (False, True):
+                        t = Obj("T", _is_class=True)
+                        if shortcut in ("valid", "invalid"):
+                            setattr(t, "__short__", "short-" + shortcut)
+                        memo = {t: "memoised"} if memoised else {}
+                        base = Obj("TypeRegistry", resolve=lambda _t: "from-base") if has_base else None
+                        self_ = Obj("TypeRegistry", shortcut=None if shortcut == "none" else "__short__",
+                                    validator=lambda v: v == "short-valid", cache=cache, _cache=memo, _lock=Obj("lock"),
+                                    _registry=[(detector(o), f"fn{i}", 0) for i, o in enumerate(reg)], base=base,
+                                    default="the-default", name="registry")
+                        ip = Interp(methods=methods, module=f.module)
+                        try:
+                            got = ip.call_function(f.node, (self_, t), {})
+                        except Raised as r:
+                            got = ("raised", r.cls)
+                        total += 1
+                        first = next((f"fn{i}" for i, o in enumerate(reg) if o == "A"), None)
+                        want_memo = {t: "memoised"} if memoised else {}
+                        if shortcut == "valid":
+                            want, clause = "short-valid", "a valid shortcut attribute of the type wins"
+                        elif cache and memoised:
+                            want, clause = "memoised", "with caching the memoised answer is served"
+                        elif first is not None:
+                            want, clause = first, "the first accepting entry in list order wins (raising detectors are skipped)"
+                            if cache:
+                                want_memo = dict(want_memo)
+                                want_memo[t] = first
+                        elif has_base:
+                            want, clause = "from-base", "without a match the base registry answers"
+                        else:
+                            want, clause = "the-default", "without a match and without a base the default answers"
+                        label = (f"registry detectors {''.join(reg) or '-'}, cache={cache}, memoised={memoised}, "
+                                 f"shortcut {shortcut}, base={has_base}")
+                        if got != want:
+                            wrong.setdefault(clause, (label, got, want))
+                        elif self_._cache != want_memo:
+                            k = "the memo holds only positive matches of this registry's own scan, keyed by the type, " \
+                                "and only when caching is enabled"
+                            wrong.setdefault(k, (label, f"memo {[v for v in self_._cache.values()]}",
+                                                 f"memo {[v for v in want_memo.values()]}"))
+    clauses = ["a valid shortcut attribute of the type wins", "with caching the memoised answer is served",
+               "the first accepting entry in list order wins (raising detectors are skipped)",
+               "without a match the base registry answers", "without a match and without a base the default answers",
+               "the memo holds only positive matches of this registry's own scan, keyed by the type, and only when caching "
+               "is enabled"]
+    for clause in clauses:
+        w = wrong.get(clause)
+        run.check("R16d", f, f"resolve: {clause}", w is None, construct=f"resolve: {clause[:60]}",
+                  message=f"TypeRegistry.resolve: {clause} - but for [{w[0] if w else ''}] it gives "
+                          f"{w[1] if w else ''!r} instead of {w[2] if w else ''!r}",
+                  necessity="the converter used is not the matching registration with the highest priority (or an answer "
+                            "that a later registration cannot invalidate is served from the memo)")
+    run.floor("R16d", "abstract input classes of resolve evaluated", total, 1000)
     # the two registries are created with the documented settings
     for mod, owner in (("utype.utils.transform", "TypeTransformer"), ("utype.utils.encode", None)):
         m = run.repo.module(mod)
